@@ -67,6 +67,10 @@ type scheduler struct {
 	sites   map[string]int
 	accept  func(site string) bool // the yield points this kind of op line schedules at; any other point is passed through
 	quiet   bool                   // set by the running thread around code whose yield points are not part of the op
+	// where every thread is parked ("" = running or finished) and the step it is in; maintained by the controller, may be
+	// read by the one thread that is running
+	parkedAt []string
+	curStep  []int
 }
 
 // active is the scheduler of the op line being executed; exactly one controlled goroutine runs at any time (the one
@@ -107,6 +111,7 @@ func runThreadsB(n int, accept func(site string) bool, blocked func(t int, parke
 	state := make([]int, n)
 	parkedAt := make([]string, n)
 	curStep := make([]int, n)
+	s.parkedAt, s.curStep = parkedAt, curStep
 	outs = make([][]string, n)
 	wait := func(t int) {
 		ev := <-s.events
